@@ -60,3 +60,37 @@ def wiring_unit(prop, through_simulation):
 for _p in ("C03", "C09", "C10", "C11"):
     wiring_unit(_p, False)
     wiring_unit(_p, True)
+
+
+# ---- mode and hazard-detection flag reach the pipeline that is built (C02 / C07 / C08): the units of those properties
+# construct RiscvArchitecturalState themselves; what a user configures on RiscvSimulation must arrive there
+from architecture_simulator.uarch.riscv.stages import (SingleStage, InstructionFetchStage, InstructionDecodeStage, ExecuteStage,
+                                                       MemoryAccessStage, RegisterWritebackStage)
+
+
+def pipeline_wiring(prop):
+    @unit("%s/state-wiring/mode-and-hazard-detection-flag" % prop)
+    def u():
+        for through in (True, False):
+            for d in (True, False):
+                st = RiscvSimulation(mode="five_stage_pipeline", detect_data_hazards=d).state if through else \
+                    RiscvArchitecturalState(pipeline_mode="five_stage_pipeline", detect_data_hazards=d)
+                ps = st.pipeline.stages
+                check("five_stages_in_order", [type(x) for x in ps] == [InstructionFetchStage, InstructionDecodeStage, ExecuteStage, MemoryAccessStage, RegisterWritebackStage])
+                check("decode_stage_gets_the_flag", ps[1].detect_data_hazards is d and ps[1].stages_until_writeback == 2)
+                check("write_back_runs_before_decode_in_a_cycle", st.pipeline.execution_ordering.index(4) < st.pipeline.execution_ordering.index(1)
+                      and sorted(st.pipeline.execution_ordering) == [0, 1, 2, 3, 4])
+                check("five_pipeline_registers", len(st.pipeline.pipeline_registers) == 5)
+            st = RiscvSimulation(mode="single_stage_pipeline").state if through else RiscvArchitecturalState(pipeline_mode="single_stage_pipeline")
+            check("single_stage", [type(x) for x in st.pipeline.stages] == [SingleStage] and st.pipeline.execution_ordering == [0])
+        # defaults: single-cycle mode, hazard detection on
+        st = RiscvSimulation().state
+        check("default_is_single_cycle", [type(x) for x in st.pipeline.stages] == [SingleStage])
+        st = RiscvSimulation(mode="five_stage_pipeline").state
+        check("hazard_detection_is_on_by_default", st.pipeline.stages[1].detect_data_hazards is True)
+        st = RiscvArchitecturalState(pipeline_mode="five_stage_pipeline")
+        check("hazard_detection_is_on_by_default_in_the_state", st.pipeline.stages[1].detect_data_hazards is True)
+
+
+for _p in ("C02", "C07", "C08"):
+    pipeline_wiring(_p)
